@@ -920,7 +920,8 @@ int engine_main(int argc, char** argv, Engine& e) {
         sres.push_back(sr);
         fprintf(stderr, "[%s %s] stage %-18s cases=%llu wall=%.1fs%s crashes=%d\n", cfg.prop.c_str(), e.name(), stage.c_str(), (unsigned long long)sr.cases, sr.wall, sr.completed ? "" : " INCOMPLETE", sr.crashes);
     }
-    // gather worker-reported violations
+    // gather worker-reported violations (a few examples per signature, all of them counted)
+    std::map<std::string, int> per_sig; for (auto& v : viols) per_sig[v.sig]++;
     for (int w = 0; w < cfg.jobs; w++) {
         char f[512]; snprintf(f, sizeof f, "%s/w%d.viol", cfg.outdir.c_str(), w);
         std::string s = slurp(f, (size_t)1 << 26); size_t pos = 0;
@@ -929,7 +930,7 @@ int engine_main(int argc, char** argv, Engine& e) {
             std::string line = s.substr(pos, eol - pos); pos = eol + 1;
             size_t t1 = line.find('\t'), t2 = line.find('\t', t1 + 1); if (t1 == std::string::npos || t2 == std::string::npos) continue;
             total_viol++;
-            if (viols.size() < 4000) viols.push_back({line.substr(0, t1), line.substr(t1 + 1, t2 - t1 - 1), line.substr(t2 + 1)});
+            { std::string sg = line.substr(0, t1); int& n = per_sig[sg]; n++; std::string rp = line.substr(t1 + 1, t2 - t1 - 1); if (n <= 5 || (n <= 40 && !rp.empty())) viols.push_back({sg, rp, line.substr(t2 + 1)}); }
         }
     }
     std::map<std::string, std::string> extra; e.finish(extra);
@@ -943,6 +944,7 @@ int engine_main(int argc, char** argv, Engine& e) {
     fprintf(o, " \"stages\": ["); for (size_t k = 0; k < sres.size(); k++) fprintf(o, "%s{\"name\": %s, \"cases\": %llu, \"completed\": %s, \"wall_s\": %.2f, \"crashes\": %d}", k ? ", " : "", jstr(sres[k].name).c_str(), (unsigned long long)sres[k].cases, sres[k].completed ? "true" : "false", sres[k].wall, sres[k].crashes); fprintf(o, "],\n");
     fprintf(o, " \"exhaustive\": %s, \"largest_completed_stage\": %s, \"deadline_s\": %.0f,\n", all_completed ? "true" : "false", jstr(largest_completed).c_str(), cfg.deadline_s);
     fprintf(o, " \"samples\": ["); for (size_t k = 0; k < samples.size(); k++) fprintf(o, "%s%s", k ? ", " : "", jstr(samples[k]).c_str()); fprintf(o, "],\n");
+    fprintf(o, " \"signature_counts\": {"); { bool first = true; for (auto& kv : per_sig) { fprintf(o, "%s%s: %d", first ? "" : ", ", jstr(kv.first).c_str(), kv.second); first = false; } } fprintf(o, "},\n");
     fprintf(o, " \"n_violations\": %llu,\n \"violations\": [", (unsigned long long)total_viol);
     for (size_t k = 0; k < viols.size(); k++) fprintf(o, "%s\n  {\"sig\": %s, \"replay\": %s, \"msg\": %s}", k ? "," : "", jstr(viols[k].sig).c_str(), jstr(viols[k].replay).c_str(), jstr(viols[k].msg.substr(0, 1200)).c_str());
     fprintf(o, "],\n \"wall_s\": %.2f\n}\n", now_s() - cfg.start_time);
